@@ -96,7 +96,7 @@ func TestC07(t *testing.T) {
 		return
 	}
 
-	r.Rapid("valid", kit.Pick(2000, 100000), func(rt *rapid.T) {
+	r.Rapid("valid", kit.Pick(6000, 200000), func(rt *rapid.T) {
 		st := gen.TypedSchema().Draw(rt, "schema")
 		if rapid.IntRange(0, 3).Draw(rt, "extendbuiltin") == 0 {
 			gen.ExtendBuiltin(rt, &st)
@@ -134,7 +134,7 @@ func TestC07(t *testing.T) {
 		}
 	})
 
-	r.Rapid("fault", kit.Pick(2500, 100000), func(rt *rapid.T) {
+	r.Rapid("fault", kit.Pick(7500, 200000), func(rt *rapid.T) {
 		st := gen.TypedSchema().Draw(rt, "schema")
 		idx := rapid.IntRange(0, gen.NumSchemaFaults()-1).Draw(rt, "fault")
 		f, ok := gen.ApplySchemaFault(rt, &st, idx)
@@ -167,7 +167,7 @@ func TestC07(t *testing.T) {
 		}
 	})
 
-	r.Rapid("random", kit.Pick(6000, 300000), func(rt *rapid.T) {
+	r.Rapid("random", kit.Pick(15000, 400000), func(rt *rapid.T) {
 		st := gen.SchemaDocTree().Draw(rt, "sdl")
 		text := renderSchemaTree(st, gen.Canon)
 		c := schemaCase{Sources: []srcText{{"s.graphql", text}}}
